@@ -81,7 +81,13 @@ func VerifC08Atomic() {
 		if err := b.WriteReader(ctx, key+".x", bytes.NewReader(nil), 0); err != nil { // ensure dir exists
 			panic(err)
 		}
-		zz.FSWriteFile(final+".part", partial)
+		// ... unless the staged prefix was discarded meanwhile (Delete after a checksum
+		// mismatch, a staging sweep): the resumed append then has nothing to extend
+		if !zz.Bool("staged_prefix_discarded") {
+			zz.FSWriteFile(final+".part", partial)
+		} else {
+			zz.Reach("append-without-prefix")
+		}
 	}
 	zz.FSCrashPoints(true)
 	zz.FSFaults(true)
